@@ -108,6 +108,23 @@ func (h *c19Handle) hasUnnamed() bool {
 	return false
 }
 
+// hasControl reports whether some value holds a control character: such
+// values are values like any other for the set (Compare, Equal, Clone), but
+// they are left out of the text round trip.
+func (h *c19Handle) hasControl() bool {
+	for _, v := range h.vals {
+		for i := 0; i < len(v); i++ {
+			if v[i] < 0x20 || v[i] == 0x7f {
+				return true
+			}
+		}
+	}
+	return false
+}
+
+// c19Seps are characters an implementation might join or delimit values with.
+var c19Seps = []string{"\x1f", "\x00", "\x1e", ",", ";", "=", " ", "\x01"}
+
 func (h *c19Handle) set(k int, v string) {
 	if k < 0 {
 		h.flags[k] = true
@@ -311,7 +328,7 @@ func (s *c19State) checkOrder() {
 
 // roundTrip writes the handle in the schema syntax and parses it back.
 func (s *c19State) roundTrip(h *c19Handle) {
-	if h.hasUnnamed() {
+	if h.hasUnnamed() || h.hasControl() {
 		return // no spelling in the text form
 	}
 	kvs := h.kvs()
@@ -639,6 +656,27 @@ func RunC19(t *kernel.Tape, o Opts) *Result {
 					mutAfterClone++
 					fault(res, "values_exchanged_between_keys", 1)
 					s.trace = append(s.trace, fmt.Sprintf("%d: h%d: values of keys %d and %d exchanged", step, h.id, ks[a], ks[b]))
+				}
+			}
+			// or original and clone get the same characters cut differently
+			// into the values of two neighbouring keys: (v1+sep+w, v2) here,
+			// (v1, w+sep+v2) there - equal only for an implementation that
+			// compares some joined form of the values
+			if ks := sortedValKeys(h.vals); len(ks) >= 2 && t.Bool(1, 4) {
+				a := t.Choose(len(ks) - 1)
+				k1, k2 := ks[a], ks[a+1]
+				sep := c19Seps[t.Choose(len(c19Seps))]
+				w := [...]string{"y", "", "w w", "z"}[t.Choose(4)]
+				if h.ver || (dep.AttrKey(k1) != dep.Selector && dep.AttrKey(k2) != dep.Selector) {
+					v1, v2 := h.vals[k1], h.vals[k2]
+					src.set(k1, v1+sep+w)
+					src.set(k2, v2)
+					h.set(k1, v1)
+					h.set(k2, w+sep+v2)
+					h.mutatedAfter, src.mutatedAfter = true, true
+					mutAfterClone++
+					fault(res, "value_boundaries_shifted_between_neighbouring_keys", 1)
+					s.trace = append(s.trace, fmt.Sprintf("%d: h%d keys %d,%d = (%q, %q); h%d = (%q, %q)", step, src.id, k1, k2, v1+sep+w, v2, h.id, v1, w+sep+v2))
 				}
 			}
 		} else {
